@@ -68,3 +68,46 @@ Definition delivery_ok (sent_by_peer accepted : list (string * list unit_)) : bo
                     | Some all => is_prefix (snd p) all
                     | None => match snd p with [] => true | _ => false end
                     end) accepted.
+
+(* ---- choosing the next remote message (io/packetparser.py parse_next_remote_packet) ----
+   The units of the selected sender are fed one by one to one parser per forecast message type.  [complete nt k] / [alive nt k]:
+   after k units the parser of nt has a complete parse / can still continue (oracle tables filled by running the real incremental parser).
+   A type leaves the race when it cannot continue; the race ends when no type is left or the sender's data is exhausted.
+   Among the types that completed, the one whose LAST completion consumed most units wins (the first such one in order of first completion);
+   the buffer is then cleared for the sender up to that unit. *)
+Definition table := list (string * list bool).
+Definition look (t : table) (nt : string) (k : nat) : bool :=
+  match assoc String.eqb nt t with Some l => nth (k - 1) l false | None => false end.
+
+(* one round with k units consumed: update the completion record, drop the types that cannot continue *)
+Definition upd_best (best : list (string * nat)) (nt : string) (k : nat) : list (string * nat) :=
+  if existsb (fun p => String.eqb (fst p) nt) best
+  then map (fun p => if String.eqb (fst p) nt then (nt, k) else p) best
+  else best ++ [(nt, k)].
+
+Fixpoint race (complete alive : table) (n : nat) (k : nat) (avail : list string) (best : list (string * nat)) {struct n} : list (string * nat) :=
+  match n with
+  | 0 => best
+  | S n' =>
+      match avail with
+      | [] => best
+      | _ =>
+          let best' := fold_left (fun b nt => if look complete nt k then upd_best b nt k else b) avail best in
+          let avail' := filter (fun nt => look alive nt k) avail in
+          race complete alive n' (S k) avail' best'
+      end
+  end.
+
+Fixpoint pick (best : list (string * nat)) (cur : option (string * nat)) : option (string * nat) :=
+  match best with
+  | [] => cur
+  | (nt, k) :: b' =>
+      match cur with
+      | None => pick b' (Some (nt, k))
+      | Some (_, kc) => if Nat.ltb kc k then pick b' (Some (nt, k)) else pick b' cur
+      end
+  end.
+
+(* n = number of units of the sender in the buffer; result: the accepted message type and how many of the sender's units it takes *)
+Definition choose (complete alive : table) (n : nat) (cands : list string) : option (string * nat) :=
+  pick (race complete alive n 1 cands []) None.
